@@ -1,4 +1,5 @@
 from props.lie import *
+from props import apiops
 
 TOL = {'f64': 1e-12, 'f32': 1e-5}
 
@@ -6,10 +7,14 @@ TOL = {'f64': 1e-12, 'f32': 1e-5}
 def audit(lines):
     reqs = []
     pend3 = {}
+    thin = apiops.Thin(3)
+    audit.pyfindings = []
     for l in lines:
         p = l.prec + 'a'
-        base = {'key': std_key(l), 'line': l.raw, 'tol': TOL[l.prec], 'judge': simple_judge}
-        if l.op in ('sqassign', 'mulassign_map'):
+        base = {'key': std_key(l), 'line': l.raw, 'tol': TOL[l.prec], 'judge': simple_judge, 'pyfindings': audit.pyfindings}
+        if apiops.audit_c01(l, p, base, reqs, thin):
+            pass
+        elif l.op in ('sqassign', 'mulassign_map'):
             # g *= g with the right operand aliased to the left: still matrix(g)·matrix(g)
             reqs.append((' '.join(['a_compose', l.grp, p] + l.ins + l.ins + l.outs),
                          dict(base, what=f'{l.op}: in-place g *= g (aliased right operand) != matrix(g) matrix(g)')))
@@ -35,12 +40,15 @@ def audit(lines):
 
 
 def make():
-    return LieProp('C01', ['identity', 'matrix', 'compose', 'mulassign', 'sqassign', 'mulassign_map', 'fcompose', 'finverse', 'compose3l', 'compose3r', 'inverse', 'act'],
-                   ['SmoothProps/C01.lean', 'SmoothProps/C01Round.lean'], audit, TOL,
+    return LieProp('C01', ['identity', 'matrix', 'compose', 'mulassign', 'sqassign', 'mulassign_map', 'fcompose', 'finverse', 'compose3l', 'compose3r', 'inverse', 'act']
+                   + apiops.API_OPS['C01'],
+                   ['SmoothProps/C01.lean', 'SmoothProps/C01Round.lean', 'SmoothProps/C01RoundB.lean', 'SmoothProps/C01RoundC.lean'], audit, TOL,
                    rule='harness/lie.cpp: per group type (6 catalogue families incl. Bundles) x scalar x 9 rotation-angle strata '
                         '(zero,tiny,switch,above_switch,small,generic,near_pi,beyond_pi,large) x 5 translation strata; '
                         'distinct_nontrivial counts distinct (op,group,scalar,stratum,input bits) with a non-zero input',
                    assumptions=['IEEE rounding: proved in the standard model fl(x op y) = (x op y)(1+d), |d| <= u, no over/underflow '
-                                '(SmoothProps/C01Round.lean: SO2 C1 Tn SO3 SE2 SE3 composition and inverse); the standard model itself, '
-                                'Galilei/SE_K_3/Bundles and the actions are audited against an exact rational oracle, not proved',
+                                '(SmoothProps/C01Round.lean, C01RoundB.lean, C01RoundC.lean: composition, inverse and the actions g*v of every '
+                                'group type incl. Galilei, SE_K_3 for every K and every nested Bundle; associativity of SO3/SE3 triple '
+                                'products in double); the standard model itself (overflow, underflow, subnormals, what the compiler emits) and the '
+                                'single-precision associativity clause are audited against an exact rational oracle, not proved',
                                 'Bundles outside the harness catalogue rely on the induction theorem about the model'])
